@@ -37,8 +37,8 @@ func main() {
 	}
 	c := vf.Start("C15", "exploration")
 	var wg sync.WaitGroup
-	sem := make(chan struct{}, c.Pick(3, 6))
-	for i := 0; i < c.Pick(3, 12); i++ {
+	sem := make(chan struct{}, c.Pick(4, 6))
+	for i := 0; i < c.Pick(4, 12); i++ {
 		wg.Add(1)
 		sem <- struct{}{}
 		go func(i int) { defer wg.Done(); defer func() { <-sem }(); run(c, i) }(i)
@@ -61,9 +61,15 @@ func run(c *vf.Ctx, si int) {
 	name := fmt.Sprintf("gov%d", si)
 	ver := []int{5, 2, 3, 4}[si%4]
 	hf := map[string]uint64{}
+	// every fourth scenario crosses the hardforks inside the history: the first blocks (stakes and producer votes)
+	// run under version 0, the re-votes and unstakes after the lock period under the final version
+	forkAt := uint64(1)
+	if si%4 == 3 {
+		forkAt = 12
+	}
 	for v := 2; v <= 5; v++ {
 		if v <= ver {
-			hf[fmt.Sprintf("V%d", v)] = 1
+			hf[fmt.Sprintf("V%d", v)] = forkAt
 		} else {
 			hf[fmt.Sprintf("V%d", v)] = 1 << 40
 		}
@@ -141,6 +147,15 @@ func run(c *vf.Ctx, si int) {
 			pick := r.Intn(9)
 			if phase2 && r.Intn(2) == 0 {
 				pick = 2 // after the lock period: unstakes (partial ones shrink existing votes)
+			}
+			if forkAt > 1 && no < forkAt {
+				// before the hardforks: stakes first, then producer votes (cast while no ranking is kept yet)
+				pick = 0
+				if no >= 4 {
+					pick = 4
+				}
+			} else if forkAt > 1 && phase2 && r.Intn(3) == 0 {
+				pick = 4 // re-votes of those accounts under the final version
 			}
 			switch pick {
 			case 0, 1: // stake
